@@ -76,6 +76,53 @@ var kinds = []kind{
 	{name: "tpl-term", template: true, body: "<p>{{ v + KK }}{% for i := 0; i < 3; i++ %}{{ i }}{% end %}</p>", abs: "c,c,h", trace: "s0,s0,s0,s0,c,w", want: "own 0"},
 }
 
+// Nested shapes: every blocking construct as the body of every loop that waits on a channel, with
+// at least one value delivered (so that the loop's own blocking operation is executed again after
+// its body has used the VM's scratch select cases), fed by a goroutine that delivers a few values
+// and stops, or never stops.
+func init() {
+	outers := []struct{ name, open, close, abs, op string }{
+		{"range", "for v := range in {", "}", "g", "OpRange"},
+		{"recvloop", "for {\n\tv := <-in", "}", "r", "OpReceive"},
+		{"selectloop", "for {\n\tselect {\n\tcase v := <-in:", "\t}\n}", "l0", "OpSelect"},
+		{"selectloop2", "for {\n\tselect {\n\tcase x := <-other:\n\t\tn -= x\n\tcase v := <-in:", "\t}\n}", "l0", "OpSelect"},
+	}
+	inners := []struct{ name, src, abs string }{
+		{"send", "out <- v", "s"},
+		{"recv", "w := <-ack\n\tn += w + v", "r"},
+		{"select-send", "select {\n\tcase out <- v:\n\t}", "l0"},
+		{"select-recv-default", "select {\n\tcase w := <-ack:\n\t\tn += w + v\n\tdefault:\n\t\tn += v\n\t}", "l1"},
+		{"range-inner", "for w := range one(v) { n += w }", "g"},
+		{"compute", "n += v", "c"},
+	}
+	for _, o := range outers {
+		for _, in := range inners {
+			for _, endless := range []bool{false, true} {
+				feeder, fabs, name := "for i := 0; i < 1+KK%3; i++ { in <- i }", "s,s,h", "nest-"+o.name+"-"+in.name
+				if endless {
+					feeder, fabs, name = "for i := 0; ; i++ { in <- i }", "s,j8,h", name+"-endless"
+				}
+				body := "in, out, ack, other := make(chan int), make(chan int), make(chan int), make(chan int)\n" +
+					"go func() { " + feeder + " }()\n" +
+					"go func() { for range out {} }()\n" +
+					"go func() { for { ack <- 1 } }()\n" +
+					"n := 0\n" + o.open + "\n\t" + in.src + "\n" + o.close + "\n_, _ = other, n"
+				kinds = append(kinds, kind{
+					name:  name,
+					decls: "func one(v int) chan int { c := make(chan int, 1); c <- v; close(c); return c }\n",
+					body:  body,
+					// 0-2 start feeder, drain, ack; 3 n := 0; 4 outer; 5 inner; 6 back to 4; 8 feeder; 11 drain; 13 ack
+					abs:     "o8,o11,o13,c," + o.abs + "," + in.abs + ",j4,h," + fabs + ",g,j11,s,j13",
+					trace:   "s0,s0,s0,s0,s1,s2,s3,S0,S0,s0,S0,S0,s0,s0,s1,c,w,s0,s1,s2,s3,s0,s1,s2,s3,s0,s1,s2,s3",
+					want:    "ctxErr 0",
+					op:      o.op,
+					nonterm: true,
+				})
+			}
+		}
+	}
+}
+
 // c11Case is one run: which kind, its constant, how the context ends and when.
 type c11Case struct {
 	Kind    string `json:"kind"`
@@ -184,7 +231,7 @@ func exec(cs c11Case) (observed, error) {
 
 func runC11(c *hx.Ctx) error {
 	res := c.Res
-	res.Rule = "30 kinds of generated code (tight/counting/nested loops, bounded recursion in a loop, blocked receive/send on unbuffered, full and nil channels, select{} and select without default, range over an open channel, goroutines spinning or blocked, select-default spin, short native calls in a loop, loops inside deferred/recovering functions, a loop inside a native callback, endless pipeline, template for loops / macro / receive; 4 terminating kinds) x random constant x context ending (cancel after 0-30 ms, timeout, cancelled before Run; for terminating code: never, late, background, racing cancel). Non-trivial: non-terminating code whose context ends, or terminating code with a context; distinct by kind+constant+context+delay"
+	res.Rule = "79 kinds of generated code: 48 nested shapes (a range / receive loop / select loop over a channel fed with 1-3 values or endlessly, whose body sends, receives, selects with and without default, ranges over another channel or only computes) and 31 flat ones (tight/counting/nested loops, bounded recursion in a loop, blocked receive/send on unbuffered, full and nil channels, select{} and select without default, range over an open channel, goroutines spinning or blocked, select-default spin, short native calls in a loop, loops inside deferred/recovering functions, a loop inside a native callback, endless pipeline, template for loops / macro / receive; 4 terminating kinds) x random constant x context ending (cancel after 0-30 ms, timeout, cancelled before Run; for terminating code: never, late, background, racing cancel). Non-trivial: non-terminating code whose context ends, or terminating code with a context; distinct by kind+constant+context+delay"
 	if v := os.Getenv("VERIF_C11_BOUND_MS"); v != "" {
 		if n, err := strconv.Atoi(v); err == nil && n > 0 {
 			boundMs = n
@@ -249,7 +296,7 @@ func runC11(c *hx.Ctx) error {
 		return o, nil
 	}
 
-	perKind := c.N(30, 400)
+	perKind := c.N(12, 160)
 	var cases []c11Case
 	for _, k := range kinds {
 		for i := 0; i < perKind; i++ {
